@@ -227,6 +227,7 @@ def _methods(u, t, finite, tier):
         {"c": str((etas[1] - t) / 2), "d": 2, "f": 0, "minsd": 1e-6},
         {"c": "1/8", "d": 1, "f": 1, "minsd": 1e-6},
         {"c": "1/4", "d": 10, "f": "1/2", "minsd": "1/8"},
+        {"c": "1/8", "d": "1/2", "f": 0, "minsd": 1e-6},  # a prior weight below one observation
     ]
     if tier == "thorough":
         st += [{"c": "1/64", "d": 100, "f": 10, "minsd": 1e-6}, {"c": "1/2", "d": 1, "f": 0, "minsd": "1/8"}]
